@@ -98,6 +98,19 @@ def check_die(case, res):
         after = die_snapshot(d2)
         if (after['w'], after['h']) != (before['w'], before['h']) or after['regions'] != before['regions']:
             res.violation('says-different', case, attrs, before['regions'], after['regions'])
+        # the other carriers the reader documents: the text itself and an open file
+        for carrier in ('text', 'handle'):
+            reset_frame_state()
+            try:
+                if carrier == 'text':
+                    d3 = Die(txt)
+                else:
+                    with open(p1) as fh:
+                        d3 = Die(fh)
+                if die_snapshot(d3) != after:
+                    res.violation('says-different', case, dict(attrs, carrier=carrier), after['regions'], die_snapshot(d3)['regions'])
+            except Exception as e:  # noqa
+                res.violation('reader-rejects', case, dict(attrs, carrier=carrier), f'Die({carrier}) loads', f'{type(e).__name__}: {e}')
     res.case('die', nontrivial=bool(before['regions']))
 
 
@@ -134,6 +147,19 @@ def check_alloc_obj(case, res, a, attrs):
         for m in {k for b in before for k in b[1]}:
             if abs(a2.area(m) - a.area(m)) > 1e-12 * max(1.0, abs(a.area(m))):
                 res.violation('says-different', case, attrs, a.area(m), a2.area(m))
+        # the other carriers the reader documents: the text itself and an open file
+        for carrier in ('text', 'handle'):
+            try:
+                if carrier == 'text':
+                    a3 = Allocation(a.write_yaml())
+                else:
+                    with open(p1) as fh:
+                        a3 = Allocation(fh)
+                if alloc_snapshot(a3) != got:
+                    res.violation('says-different', case, dict(attrs, carrier=carrier), got[:4], alloc_snapshot(a3)[:4])
+            except Exception as e:  # noqa
+                res.violation('reader-rejects', case, dict(attrs, carrier=carrier, all_empty=all(not b[1] for b in before)),
+                              f'Allocation({carrier}) loads', f'{type(e).__name__}: {e}')
 
 
 def check_alloc(case, res):
